@@ -112,6 +112,7 @@ type LockEvent struct {
 
 // LockCtx is one function analysed from one entry state.
 type LockCtx struct {
+	goDepth   int // nesting of go statements under which the analysis of this context was started
 	Fn        *ssa.Function
 	Entry     uint8
 	In        map[ssa.Instruction]LState // state before the instruction
@@ -157,11 +158,12 @@ type Window struct {
 
 // LockAnalysis is the result of A3 for one mutex.
 type LockAnalysis struct {
-	P     *Program
-	Spec  *LockSpec
-	Ctx   map[lockCtxKey]*LockCtx
-	Roots map[*ssa.Function]string // why the function is a root
-	Ctors map[*ssa.Function]bool   // functions that allocate the guarded object (entered unshared)
+	goDepth int
+	P       *Program
+	Spec    *LockSpec
+	Ctx     map[lockCtxKey]*LockCtx
+	Roots   map[*ssa.Function]string // why the function is a root
+	Ctors   map[*ssa.Function]bool   // functions that allocate the guarded object (entered unshared)
 	// Escaped: anonymous functions never called, deferred or spawned directly: their calling context is unknown.
 	Escaped map[*ssa.Function]bool
 	Notes   map[string]bool
@@ -430,6 +432,11 @@ func (a *LockAnalysis) MergedAt(in ssa.Instruction) LState {
 func (a *LockAnalysis) analyze(fn *ssa.Function, entry uint8) *LockCtx {
 	key := lockCtxKey{fn, entry}
 	if c := a.Ctx[key]; c != nil {
+		if c.busy && a.goDepth > c.goDepth {
+			// reached from a goroutine that was spawned (transitively) by the activation under analysis: a separate
+			// activation that the spawner does not wait for, not recursion. Its own exit state is this context's.
+			return c
+		}
 		if c.busy {
 			c.recursive = true
 			a.note("recursion through " + FuncName(fn) + ": its effect on " + a.Spec.Name + " is assumed balanced")
@@ -437,7 +444,7 @@ func (a *LockAnalysis) analyze(fn *ssa.Function, entry uint8) *LockCtx {
 		return c
 	}
 	c := &LockCtx{Fn: fn, Entry: entry, In: map[ssa.Instruction]LState{}, DeferExec: map[*ssa.Defer]LState{},
-		Returns: map[*ssa.Return]LState{}, openerID: map[ssa.Instruction]int{}, busy: true}
+		Returns: map[*ssa.Return]LState{}, openerID: map[ssa.Instruction]int{}, busy: true, goDepth: a.goDepth}
 	a.Ctx[key] = c
 	a.byFn[fn] = append(a.byFn[fn], c)
 	if len(fn.Blocks) == 0 {
@@ -533,7 +540,9 @@ func (a *LockAnalysis) flowBlock(c *LockCtx, b *ssa.BasicBlock, st LState, rec b
 				if busy := a.Ctx[lockCtxKey{callee, LkReleased}]; busy != nil && busy.busy {
 					sub = busy
 				} else {
+					a.goDepth++
 					sub = a.analyze(callee, LkReleased)
+					a.goDepth--
 				}
 				if rec {
 					e := &LockCall{Caller: c, Instr: x, Callee: sub, State: st, Go: true}
